@@ -19,6 +19,13 @@ func init() {
 			"hub-vs-hub snapshots use incoming queries only with a concrete predicate and single-dataset scope (outside the open C03 findings)"}, assumeStore...),
 		Stages: func(tier string) []Stage {
 			st := mgStages("C07+C01+C02+C03", 16, 12, 16, 250)(tier)
+			// concurrent stage: a dataset written (long batch), renamed and deleted by three clients at once, a new name
+			// created by all writers at once: what was deleted stays unreachable under every name
+			n, c := 3, 2
+			if tier == "thorough" {
+				n, c = 8, 10
+			}
+			st = append(st, Stage{Name: "conc", Scenario: "c05conc", Args: "prop=C07,props=C07", Children: n, Cases: c, GOMAXPROCS: 8, Env: []string{c05Hooks}, Timeout: 20 * time.Minute})
 			if tier == "thorough" {
 				return append(st, crashStage("crashmg", "mgmt", "C07", 16, 6, 0, 3))
 			}
